@@ -119,3 +119,81 @@ def stepCDF (pts : List α) (x : α) : α :=
   div (ofNat (pts.filter fun p => le p x).length) (ofNat pts.length)
 
 end Stats.Dists
+
+/-! ### NormalDist.InvCDF (normaldist.go:62-126): Acklam's rational approximations in three regions
+followed by one refinement step.  `log`, `sqrt`, `erfc`, `exp` and the constants √2, √(2π) are
+parameters; the polynomial coefficients are the decimal literals of the source, converted to the
+number type exactly as Go converts untyped constants. -/
+namespace Stats.Dists.NInv
+open Stats Arith
+variable {α : Type} [Arith α]
+
+def a1 : α := neg (ofFrac 3969683028665376 (10 ^ 14))
+def a2 : α := ofFrac 2209460984245205 (10 ^ 13)
+def a3 : α := neg (ofFrac 2759285104469687 (10 ^ 13))
+def a4 : α := ofFrac 1383577518672690 (10 ^ 13)
+def a5 : α := neg (ofFrac 3066479806614716 (10 ^ 14))
+def a6 : α := ofFrac 2506628277459239 (10 ^ 15)
+def b1 : α := neg (ofFrac 5447609879822406 (10 ^ 14))
+def b2 : α := ofFrac 1615858368580409 (10 ^ 13)
+def b3 : α := neg (ofFrac 1556989798598866 (10 ^ 13))
+def b4 : α := ofFrac 6680131188771972 (10 ^ 14)
+def b5 : α := neg (ofFrac 1328068155288572 (10 ^ 14))
+def c1 : α := neg (ofFrac 7784894002430293 (10 ^ 18))
+def c2 : α := neg (ofFrac 3223964580411365 (10 ^ 16))
+def c3 : α := neg (ofFrac 2400758277161838 (10 ^ 15))
+def c4 : α := neg (ofFrac 2549732539343734 (10 ^ 15))
+def c5 : α := ofFrac 4374664141464968 (10 ^ 15)
+def c6 : α := ofFrac 2938163982698783 (10 ^ 15)
+def d1 : α := ofFrac 7784695709041462 (10 ^ 18)
+def d2 : α := ofFrac 3224671290700398 (10 ^ 16)
+def d3 : α := ofFrac 2445134137142996 (10 ^ 15)
+def d4 : α := ofFrac 3754408661907416 (10 ^ 15)
+
+/-- `plow = 0.02425`, `phigh = 1 - plow` (an exact constant expression: 0.97575) -/
+def plow : α := ofFrac 2425 100000
+def phigh : α := ofFrac 97575 100000
+
+/-- `((((c1*q+c2)*q+c3)*q+c4)*q+c5)*q + c6` -/
+def polyC (q : α) : α :=
+  add (mul (add (mul (add (mul (add (mul (add (mul c1 q) c2) q) c3) q) c4) q) c5) q) c6
+/-- `(((d1*q+d2)*q+d3)*q+d4)*q + 1` -/
+def polyD (q : α) : α :=
+  add (mul (add (mul (add (mul (add (mul d1 q) d2) q) d3) q) d4) q) (ofNat 1)
+/-- `((((a1*r+a2)*r+a3)*r+a4)*r+a5)*r + a6` -/
+def polyA (r : α) : α :=
+  add (mul (add (mul (add (mul (add (mul (add (mul a1 r) a2) r) a3) r) a4) r) a5) r) a6
+/-- `((((b1*r+b2)*r+b3)*r+b4)*r+b5)*r + 1` -/
+def polyB (r : α) : α :=
+  add (mul (add (mul (add (mul (add (mul (add (mul b1 r) b2) r) b3) r) b4) r) b5) r) (ofNat 1)
+
+/-- the region selection and the rational approximation (0 < p < 1) -/
+def approx (log sqrt : α → α) (p : α) : α :=
+  let m2 : α := neg (ofNat 2)
+  if lt p (plow : α) then
+    let q := sqrt (mul m2 (log p))
+    div (polyC q) (polyD q)
+  else if lt (phigh : α) p then
+    let q := sqrt (mul m2 (log (sub (ofNat 1) p)))
+    div (neg (polyC q)) (polyD q)
+  else
+    let q := sub p half
+    let r := mul q q
+    div (mul (polyA r) q) (polyB r)
+
+/-- the refinement step `e := 0.5*erfc(-x/√2) - p; u := e*√(2π)*exp(x*x/2); x - u/(1+x*u/2)` -/
+def refine (erfc exp : α → α) (sqrt2 sqrt2pi p x : α) : α :=
+  let e := sub (mul half (erfc (div (neg x) sqrt2))) p
+  let u := mul (mul e sqrt2pi) (exp (div (mul x x) (ofNat 2)))
+  sub x (div u (add (ofNat 1) (div (mul x u) (ofNat 2))))
+
+/-- `NormalDist{μ,σ}.InvCDF(p)` -/
+def invCDF (log sqrt erfc exp : α → α) (sqrt2 sqrt2pi μ σ p : α) : IRes α :=
+  if lt p (ofNat 0) || lt (ofNat 1) p then .nan
+  else if eq p (ofNat 0) then .negInf
+  else if eq p (ofNat 1) then .posInf
+  else
+    let x := refine erfc exp sqrt2 sqrt2pi p (approx log sqrt p)
+    .val (add (mul x σ) μ)
+
+end Stats.Dists.NInv
